@@ -255,7 +255,7 @@ func genPrintCase(r *Rng, ver string, thorough bool) toks {
 func genC10(tier string, r *Rng, emit func(Case)) {
 	n := 4000
 	if tier == "thorough" {
-		n = 60000
+		n = 400000
 	}
 	for i := 0; i < n; i++ {
 		ver := allVers[i%3]
